@@ -63,9 +63,17 @@ def build_tau2_model(rng, how, idx=0):
     a = float(np.round(np.exp(rng.uniform(np.log(0.05), np.log(20.0))), 3))
     b = float(np.round(np.exp(rng.uniform(np.log(0.005), np.log(5.0))), 4))
     bstyle = str(rng.choice(["prior", "null", "tail", "small"]))
+    if idx % 7 == 3:
+        # a very small prior scale with coefficients that carry no penalty (all zero, the DistRegBuilder start value):
+        # the conditional is IG(a + rank/2, b) with b ~ 1e-9. (Null-space coefficients of size 3 are not used here: in
+        # float32 their quadratic form is rounding noise of the order of b itself, in the kernel and in the model alike.)
+        b = float(10 ** rng.uniform(-10, -8))
+        bstyle = "zero"
     lam, Q = np.linalg.eigh(K.astype(np.float64))
     if bstyle == "null" and r < m:
         beta = Q[:, : m - r] @ rng.normal(size=m - r) * 3
+    elif bstyle == "zero":
+        beta = np.zeros(m)
     elif bstyle == "tail":
         beta = rng.normal(size=m) * 8
     elif bstyle == "small":
@@ -142,8 +150,11 @@ def case_tau2(case, res):
         # the hyper-parameters and coefficients in the *state handed to the kernel* differ from those the model
         # held when the kernel was built (as in any engine run where they are sampled or re-assigned)
         a2 = float(np.round(desc["a"] * np.exp(rng.uniform(-1.2, 1.2)), 3))
-        b2 = float(np.round(desc["b"] * np.exp(rng.uniform(-1.5, 1.5)), 4))
+        b2 = desc["b"] * float(np.exp(rng.uniform(-1.5, 1.5)))
+        b2 = float(np.round(b2, 4)) if b2 > 1e-3 else float(b2)
         beta2 = np.asarray(model.vars[g["beta"].name].value) * float(rng.choice([0.3, 2.5]))
+        if desc["beta_style"] == "zero":
+            beta2 = beta2 * 0.0
         state = iface.update_state({g["a"].name: jnp.asarray(a2, jnp.float32), g["b"].name: jnp.asarray(b2, jnp.float32),
                                     g["beta"].name: jnp.asarray(beta2, jnp.float32)}, state)
         K64 = np.asarray(model.vars[g["K"].name].value, np.float64)
@@ -281,7 +292,13 @@ def case_discrete(case, res):
         lat = lsl.param(jnp.asarray(rng.normal(size=2).astype(np.float32) * 2.0), lsl.Dist(tfd.Normal, loc=0.0, scale=sc), name="lat")
         nodes.append(lat)
         lik = lik + "+latent"
-    model = lsl.GraphBuilder().add(*nodes).build_model()
+    gb_ = lsl.GraphBuilder().add(*nodes)
+    ynode = next((n_ for n_ in nodes if n_.name == "y"), None)
+    if case["idx"] % 5 == 2 and ynode is not None:
+        # a user-defined log-probability (tempered posterior): the model's joint density is what this node says
+        gb_.log_prob_node = lsl.Calc(lambda pk, ly: jnp.sum(pk) + 0.2 * jnp.sum(ly), kv.dist_node, ynode.dist_node, _name="tempered")
+        lik = lik + "+user_log_prob"
+    model = gb_.build_model()
     kernel = lsl.finite_discrete_gibbs_kernel("k", model, outcomes=outs) if hasattr(lsl, "finite_discrete_gibbs_kernel") else None
     if kernel is None:
         from liesel.model.goose import finite_discrete_gibbs_kernel
